@@ -154,7 +154,8 @@ fn print_performance(duration: Duration) {
     use colored::Colorize;
     let time = format!("{}μs", duration.as_micros());
     println!("Solved in {time} (mean over {NUM_ITERS_BENCHMARK} iterations)");
-    let solves_per_second = Duration::from_secs(1).as_micros() / duration.as_micros();
+    // A mean solve time below 1μs rounds down to 0; avoid dividing by zero.
+    let solves_per_second = Duration::from_secs(1).as_micros() / duration.as_micros().max(1);
     let solves_per_second = if solves_per_second <= 60 {
         solves_per_second.to_string().red()
     } else {
